@@ -380,7 +380,7 @@ def _reuse_scenarios(quick, seed):
                  "history": [{"op": "dump"}, {"op": "set", "writer": {"principal": "unset"}}, {"op": "dump"}]})
     scns.append({"id": "reuse/principal-unresolvable-later", "target": tgt(2), "writer": {"blamed": "main", "skip": True, "principal": {"region": "code", "off": 64}},
                  "history": [{"op": "dump"}, {"op": "set", "writer": {"principal": "0x30"}}, {"op": "dump"}]})
-    for k in range(0 if quick else 40):
+    for k in range(3 if quick else 40):
         n = rnd.randrange(1, 6)
         hist = []
         for j in range(rnd.randrange(2, 6)):
